@@ -102,8 +102,9 @@ def check_history(h):
     if e_z > tol or e_zu > tol:
         bad.append(("formula-logz", f"logz differs from log-mean-unnormalised-weight by {max(e_z, e_zu):.3g} (tol {tol:.3g})"))
     s = float(np.sum(np.exp(lw.astype(LD))))
-    if abs(s - 1.0) > 1e-9:
-        bad.append(("sum-to-one", f"normalised weights sum to {s!r}"))
+    # each log-weight carries rounding error ~eps*scale, so the sum of exp() does too
+    if abs(s - 1.0) > 1e-9 + 256 * np.finfo(float).eps * scale:
+        bad.append(("sum-to-one", f"normalised weights sum to {s!r} (scale {scale:.3g})"))
     # metamorphic 1: order of iterations
     T = h["T"]
     if T > 1:
